@@ -83,4 +83,20 @@ var props = []propCfg{
 		LevelNote: "Trusted: Go's strings/fmt/strconv as the reference for the wrappers; the map model.",
 		DesignRef: "DESIGN.md section 4, C14",
 	},
+	{
+		ID: "C10", Pkg: "props/c10",
+		Tests: []testCfg{
+			{Name: "TestOpEqual", Rapid: true, Quick: 32000, Thorough: 2400000, ShardsQ: 12, ShardsT: 16},
+			{Name: "TestLibraryPaths", Rapid: true, Quick: 4000, Thorough: 100000, ShardsQ: 4, ShardsT: 4},
+		},
+		Rule:      "in-process: Go types mirroring fc's representation of records (exported and lower-case fields, generic, recursive), unions (interface + case structs), tuples and slices, 24 root types up to slice nesting 3; rapid draws a model tree, builds the Go value through a drawn construction path per slice (exact, nil, grown by append, spare capacity with foreign data in the hidden tail, middle of a larger array, empty suffix), and forms pairs (rebuilt copy by other paths | one place mutated | independent) and triples; frt.OpEqual/OpNotEqual are compared with reference equality on the model trees, both argument orders, plus reflexivity and transitivity. A second property compares the same contents produced by 13 different pkg/slice call paths. Non-trivial = a value containing a slice or a lower-case-field record; distinct = hash of (type, model trees incl. paths).",
+		Technique: "property-based testing (rapid) against reference structural equality on model trees; metamorphic (same contents via different construction paths)",
+		Assumptions: []string{
+			"first-order values only (no functions, no floats, no dicts), as the property states",
+			"the mirrored Go declarations are what fc emits for the corresponding Folang declarations (checked by C03/C01 end to end)",
+		},
+		LevelText: "Generated-input search with an independent oracle: tens of thousands (quick) to millions (thorough) of value pairs/triples over every representation shape fc produces, with nil/empty/aliased slice layouts reached by construction rather than luck. Exploration, not proof.",
+		LevelNote: "Trusted: reference equality on model trees; reflection-based value construction (unsafe is used only to fill lower-case fields, as generated code in the same package would).",
+		DesignRef: "DESIGN.md section 4, C10",
+	},
 }
